@@ -60,6 +60,9 @@ class C03(Prop):
             c = B.gen_case(rng, B.CLASSES[i % len(B.CLASSES)])
             c["json"] = False
             c["probe_seed"] = rng.randrange(10 ** 9)
+            if c["cls"] == "ContinuousCarver" and i % 2 == 0:
+                # fractional target whose per-modality means lie within one unit (ratios)
+                c["y"] = [v / 16 for v in c["y"]]
             cases.append(c)
         return cases
 
